@@ -183,6 +183,14 @@ class SegwitChecker(SolutionChecker):
                     errno.WITNESS_MALLEATED_P2SH if is_p2sh else errno.WITNESS_MALLEATED
                 )
                 raise ScriptError("script sig is not blank on segwit input", err)
+            if is_p2sh and tx_context.solution_script != self.ScriptTools.compile_push_data_list(  # type: ignore[attr-defined]
+                [puzzle_script]
+            ):
+                # BIP141: the scriptSig must be exactly the canonical push of the redeem script
+                raise ScriptError(
+                    "script sig is not a single push of the redeem script",
+                    errno.WITNESS_MALLEATED_P2SH,
+                )
 
             if witness_version == 0:
                 stack, puzzle_script = self._check_witness_program_v0(
